@@ -151,9 +151,51 @@ def make_env(cfg: dict, loader, extra_globals: dict | None = None):
               undefined=undefined, default_trim=trim)
     for k, v in ns.items():
         setattr(env, k, v)
+    if cfg.get("template_class"):
+        env.template_class = page_template()
+    if cfg.get("lexer") == "dollar":
+        env.lexer_class = dollar_lexer()
     if cfg.get("translation_filters"):
         liquid2.builtin.register_translation_filters(env, replace=True, autoescape_message=bool(cfg.get("auto_escape")))
     return env
+
+
+PageTemplate = None
+DollarLexer = None
+
+
+def page_template():
+    """An application's Template subclass (Environment.template_class): adds a render global."""
+    global PageTemplate
+    if PageTemplate is None:
+        from liquid2 import Template
+        from liquid2.utils.chainmap import ReadOnlyChainMap
+
+        class _PageTemplate(Template):
+            def make_globals(self, render_args):
+                return ReadOnlyChainMap(super().make_globals(render_args), {"tclass": "PT"})
+
+        _PageTemplate.__name__ = _PageTemplate.__qualname__ = "PageTemplate"
+        _PageTemplate.__module__ = __name__
+        PageTemplate = _PageTemplate
+    return PageTemplate
+
+
+def dollar_lexer():
+    """An application's Lexer subclass (Environment.lexer_class): '$' may appear in names."""
+    global DollarLexer
+    if DollarLexer is None:
+        from liquid2.lexer import Lexer
+        from liquid2.lexer import _compile
+
+        class _DollarLexer(Lexer):
+            WORD = {"WORD": r"[\u0080-\uFFFFa-zA-Z_$][\u0080-\uFFFFa-zA-Z0-9_$-]*"}
+            TOKEN_RULES = _compile(Lexer.NUMBERS, Lexer.SYMBOLS, WORD)
+
+        _DollarLexer.__name__ = _DollarLexer.__qualname__ = "DollarLexer"
+        _DollarLexer.__module__ = __name__
+        DollarLexer = _DollarLexer
+    return DollarLexer
 
 
 def activate(st) -> None:
